@@ -62,7 +62,10 @@ class Tools:
 
 def case_text(cid, P, mat, n, seq, repeat=1, fail=0, fact=1, permc=1, nr=0, env=None):
     t = u.drv_case(cid, "x", P, 0, mat, n, fail=fail, fact=fact, permc=permc, nr=nr, env=env)
-    return t.replace("END\n", "SEQ %s\nREPEAT %d\nEND\n" % (seq, repeat))
+    # several right-hand sides (1..3, derived from the case id: per-column work of the refinement and of the solves is then
+    # allocated / released more than once per call)
+    nrhs = 1 + (sum(map(ord, str(cid))) % 3)
+    return t.replace("END\n", "NRHS %d\nSEQ %s\nREPEAT %d\nEND\n" % (nrhs, seq, repeat))
 
 
 def run_trace(tools, prec, text, alarm=90):
